@@ -446,6 +446,8 @@ def run_loop(I, st, fr, site, roots, run_body, what, extra_values=()):
             return get_path(v, path)
         return cur_of
 
+    import loop_specs
+    is_kahn = loop_specs.announce(I, fr, lname, entry, fresh)
     it = 0
     while True:
         it += 1
@@ -461,10 +463,14 @@ def run_loop(I, st, fr, site, roots, run_body, what, extra_values=()):
         # the step specifications below decide on the facts of each path through the body: no joining in here
         saved_join = I.merge_shortcuts
         I.merge_shortcuts = False
+        if is_kahn:
+            I.kahn_body_depth = getattr(I, "kahn_body_depth", 0) + 1
         try:
             outs = run_body(head.copy())
         finally:
             I.merge_shortcuts = saved_join
+            if is_kahn:
+                I.kahn_body_depth -= 1
         failed = set()
         for (s, v, ctl) in outs:
             if ctl in (None, "continue"):
